@@ -1,5 +1,109 @@
-import Toq.Driver.Util
-/-! Driver handlers for C15 (stub; filled in by the owner of this property). -/
+import Toq.Driver.QJson
+import Toq.Model.Sep
+/-! Driver front end for C15 (PPT / separability verdicts).
+
+Matrices come in the `QJson` dyadic encoding (`{"e":k,"re":[…],"im":[…]}`), rationals as `[num, den]` or an
+integer.  Exact matrices are returned as `{"re":[[num,den],…],"im":[[num,den],…]}` (row-major).
+
+* `c15_pt        {"dA","dB","sys","X"}`                      → exact partial transpose `pt sys X`
+* `c15_swap      {"dA","dB","X"}`                            → `swapAB X` (an operator on `dB ⊗ dA`)
+* `c15_localconj {"dA","dB","U","V","X"}`                    → `(U ⊗ V) X (U ⊗ V)ᴴ`
+* `c15_sepmix    {"dA","dB","w":[rat…],"a":[col…],"b":[col…]}` → `Σ_k w_k (a_k a_kᴴ) ⊗ (b_k b_kᴴ)`; rejects negative weights
+  and unequal list lengths
+* `c15_lammin    {"dA","dB","sys","X","tol","c","k","L","v"}` → certificates for `pt sys X`:
+  `{"lo":rat|null,"hi":rat|null,"verdict":true|false|null}` (the verified `checkLamMinLower`, `checkLamMinUpper`, `pptVerdict`);
+  `"sys":0` applies the certificates to `X` itself (no transpose)
+* `c15_ball      {"n","M","thr"}`                            → `{"mirror":bool,"ineq":bool,"tr":rat,"frob2":rat}`
+* `c15_ball_eig  {"lam":[rat…],"thr"}`                       → `{"ineq":bool}` -/
+open Lean Toq.Sep EMat
+
 namespace Toq.Driver.C15
-def handlers : List (String × Handler) := []
+
+def ratsJson {r c : Nat} (A : EMat r c) (f : QI → Rat) : Json :=
+  Json.arr <| (List.finRange r).toArray.flatMap fun i => (List.finRange c).toArray.map fun j => ratJson (f (A.get i j))
+
+def ematJson {r c : Nat} (A : EMat r c) : Json :=
+  Json.mkObj [("re", ratsJson A (·.re)), ("im", ratsJson A (·.im))]
+
+def optRat : Option Rat → Json
+  | some q => ratJson q
+  | none => Json.null
+
+def optBool : Option Bool → Json
+  | some b => Json.bool b
+  | none => Json.null
+
+def hPt : Handler := fun j => do
+  let dA ← getNat j "dA"
+  let dB ← getNat j "dB"
+  let sys ← getNat j "sys"
+  if dA == 0 || dB == 0 then return reject "ZeroDim"
+  if sys != 1 && sys != 2 then return reject "BadSys"
+  let X ← getEMat j "X" (dA * dB) (dA * dB)
+  return ematJson (pt sys X)
+
+def hSwap : Handler := fun j => do
+  let dA ← getNat j "dA"
+  let dB ← getNat j "dB"
+  if dA == 0 || dB == 0 then return reject "ZeroDim"
+  let X ← getEMat j "X" (dA * dB) (dA * dB)
+  return ematJson (swapAB X)
+
+def hLocalConj : Handler := fun j => do
+  let dA ← getNat j "dA"
+  let dB ← getNat j "dB"
+  if dA == 0 || dB == 0 then return reject "ZeroDim"
+  let U ← getEMat j "U" dA dA
+  let V ← getEMat j "V" dB dB
+  let X ← getEMat j "X" (dA * dB) (dA * dB)
+  return ematJson (localConj U V X)
+
+def hSepMix : Handler := fun j => do
+  let dA ← getNat j "dA"
+  let dB ← getNat j "dB"
+  if dA == 0 || dB == 0 then return reject "ZeroDim"
+  let w ← getRatList j "w"
+  let a ← getEMatList j "a" dA 1
+  let b ← getEMatList j "b" dB 1
+  if a.length != w.length || b.length != w.length then return reject "LengthMismatch"
+  if w.any (· < 0) then return reject "NegativeWeight"
+  return ematJson (sepMix w a b)
+
+def hLamMin : Handler := fun j => do
+  let dA ← getNat j "dA"
+  let dB ← getNat j "dB"
+  let sys ← getNat j "sys"
+  if dA == 0 || dB == 0 then return reject "ZeroDim"
+  if sys > 2 then return reject "BadSys"
+  let X ← getEMat j "X" (dA * dB) (dA * dB)
+  let tol ← getRat j "tol"
+  let c ← getRat j "c"
+  let k ← getNat j "k"
+  let L ← getEMat j "L" (dA * dB) k
+  let v ← getEMat j "v" (dA * dB) 1
+  let A := if sys == 0 then X else pt sys X
+  let verdict := if sys == 0 then lamMinVerdict X tol c L v else pptVerdict sys X tol c L v
+  return Json.mkObj [("lo", optRat (checkLamMinLower A c L)), ("hi", optRat (checkLamMinUpper A v)),
+    ("verdict", optBool verdict), ("hermitian", Json.bool A.isHermitian)]
+
+def hBall : Handler := fun j => do
+  let n ← getNat j "n"
+  if n < 2 then return reject "DimTooSmall"
+  let M ← getEMat j "M" n n
+  let thr ← getRat j "thr"
+  if thr ≤ 0 then return reject "NonPositiveThreshold"
+  return Json.mkObj [("mirror", Json.bool (inSepBallMirror thr M)), ("ineq", Json.bool (inSepBall thr M)),
+    ("tr", ratJson (trRe M)), ("frob2", ratJson (frob2 M))]
+
+def hBallEig : Handler := fun j => do
+  let lam ← getRatList j "lam"
+  if lam.length < 2 then return reject "DimTooSmall"
+  let thr ← getRat j "thr"
+  if thr ≤ 0 then return reject "NonPositiveThreshold"
+  return Json.mkObj [("ineq", Json.bool (inSepBallEig thr lam))]
+
+def handlers : List (String × Handler) :=
+  [("c15_pt", hPt), ("c15_swap", hSwap), ("c15_localconj", hLocalConj), ("c15_sepmix", hSepMix),
+   ("c15_lammin", hLamMin), ("c15_ball", hBall), ("c15_ball_eig", hBallEig)]
+
 end Toq.Driver.C15
